@@ -425,7 +425,9 @@ def gen_endpoint(rng, exact=False, endpoint=None, force=None):
               objectives=[rng.choice(["maximize", "minimize"]) for _ in range(nm)], optimized=opt, constraint=con, thresholds=thr,
               budget=n if ep == "spe" else n * rng.choice([1, 1, 2, 4, 10]), num_to_sample=nts,
               parallelism=par, task_options=tasks, task_costs=[rng.choice(tasks) for _ in range(n)] if tasks else [],
-              pending_task_costs=[rng.choice(tasks) for _ in range(npend)] if tasks else [], seed=rng.randrange(2 ** 31))
+              pending_task_costs=[rng.choice(tasks) for _ in range(npend)] if tasks else [], seed=rng.randrange(2 ** 31),
+              # categorical parameters whose length scales are still the unfitted default [None, ...] in the caller's hyperparameter records (C15_m14)
+              cat_ls_default=any(c["var_type"] == "categorical" for c in comps) and rng.random() < 0.5)
 
 
 def cube_bounds(inp):
